@@ -22,6 +22,7 @@ RULES = {
     "C03.R4": lambda ctx: encrules.who_calls_vlq(ctx, "C03.R4"),
     "C03.R4w": lambda ctx: vlqrules.writer_shape(ctx, "C03.R4w"),
     "C03.R4t": lambda ctx: vlqrules.tables(ctx, "C03.R4t"),
+    "C03.R0": lambda ctx: __import__("rules.foundations", fromlist=["x"]).accessors(ctx, "C03.R0", None),
     "C03.R5": lambda ctx: encrules.sections(ctx, "C03.R5"),
 }
 
